@@ -112,6 +112,8 @@ def tokenize(text: str) -> list[Token]:
         \[(?P<CAL>[^\]]+)\]
         |
         (?P<TXT>[^\[]+)
+        |
+        (?P<LONE>\[)
     """
 
     tokens = []
@@ -127,7 +129,8 @@ def tokenize(text: str) -> list[Token]:
                 tokens.append(Token(TokenType.RET, val))
             case "TXT":
                 tokens.append(Token(TokenType.TXT, val))
-            case "ESC":
+            case "ESC" | "LONE":
+                # NOTE: a bracket that opens no tag is text
                 tokens.append(Token(TokenType.TXT, "["))
             case _ as never:
                 raise AssertionError(f"Unexpected kind: {never}")
